@@ -13,7 +13,7 @@
    without any excluded shape.
    Clause (4) of the property (the block-walking reader bpch2 presents the same data) has NO theorem: bpch2 cannot
    run in this environment (known finding C18-bpch2-cannot-run, region 1) and is not modelled. *)
-From PNC Require Import Base.Util Base.Words Gen.Bpch Model.Bpch Proofs.WordsProofs Proofs.BpchProofs.
+From PNC Require Import Base.Util Base.Words Gen.Bpch Model.Bpch Proofs.WordsProofs Proofs.BpchProofs Proofs.BpchPrefixProofs Proofs.BpchPrefixThm.
 From Coq Require Import String QArith.
 Import Coq.Lists.List. Import ListNotations.
 Local Open Scope Z_scope.
@@ -71,6 +71,22 @@ Theorem C18_write_read : forall T D v,
 Proof. exact write_read. Qed.
 Print Assumptions C18_write_read.
 
+(* Every byte prefix (C14 names bpch): for EVERY bpch-convention file and EVERY cut point c (bytes; the reader sees the
+   whole words of the first c bytes) the reader model either raises, or presents exactly the first k whole time blocks
+   (and the cut is at or after the end of the k-th), or - when the cut is exactly at a tracer boundary strictly inside the
+   FIRST time block - one time block holding exactly the first j tracers.  Nothing else can be presented: no partial
+   block, no value that is not in the full file. *)
+Theorem C18_every_prefix : forall T D f c,
+  wf T D f = true -> tables_ok T D = true -> 0 <= c <= 4 * lenZ (enc f) ->
+  let r := impl_open T D (firstn (Z.to_nat (c / 4)) (enc f)) c in
+  r = Err
+  \/ (exists k, (1 <= k <= length (f_times f))%nat /\ 136 + 4 * (Z.of_nat k * tb_wordsZ (tb0 f)) <= c
+                /\ r = Ok (view_of T D (trunc_times k f)))
+  \/ (exists j, (1 <= j < length (tb0 f))%nat /\ c = 136 + 4 * tb_wordsZ (firstn j (tb0 f))
+                /\ r = Ok (view_of T D (first_tracers j f))).
+Proof. exact prefix_open. Qed.
+Print Assumptions C18_every_prefix.
+
 (* Translation validation (tie T): reader and writer header layouts agree field by field (the writer's `dim` is
    the reader's f13+f14), pads are the record payload sizes, skip = data bytes + 8. *)
 Theorem C18_layouts :
@@ -120,4 +136,25 @@ Example C18_formerly_failing_shapes :
   let f2 := C18_file [[C18_blk 1083129856 1 49 (repeat 1065353216 49)]] in
   wf [] [] f1 = true /\ impl_open [] [] (enc f1) (4 * lenZ (enc f1)) = Ok (view_of [] [] f1)
   /\ wf [] [] f2 = true /\ impl_open [] [] (enc f2) (4 * lenZ (enc f2)) = Ok (view_of [] [] f2).
+Proof. vm_compute. repeat split; reflexivity. Qed.
+
+(* The third alternative of C18_every_prefix is real: "an exception or exactly k COMPLETE time blocks" (the C14 wording)
+   is false for bpch - a two-tracer file cut after its first data block opens and presents one tracer (a bpch file has
+   no tracer count, so such a prefix is itself a well-formed file).  Replays on the library (cut = 368 of 600 bytes). *)
+Theorem C18_prefix_whole_time_blocks_only_refuted : exists T D f c,
+  wf T D f = true /\ tables_ok T D = true /\ 0 <= c < 4 * lenZ (enc f)
+  /\ exists v, impl_open T D (firstn (Z.to_nat (c / 4)) (enc f)) c = Ok v
+              /\ length (r_vars v) = 1%nat /\ length (tb0 f) = 2%nat /\ length (f_times f) = 1%nat.
+Proof.
+  exists [], [], (C18_file [[C18_blk 1083129856 1 1 [1065353216]; C18_blk 1083129856 2 1 [1073741824]]]), 368.
+  vm_compute. repeat split; try reflexivity; try discriminate.
+  eexists. repeat split; reflexivity.
+Qed.
+Print Assumptions C18_prefix_whole_time_blocks_only_refuted.
+
+(* non-vacuity of C18_every_prefix: all three alternatives occur on the two-time, two-tracer example (276 words) *)
+Example C18_prefix_alternatives :
+  impl_open C18_T C18_D (firstn 100 (enc C18_example)) 400 = Err
+  /\ impl_open C18_T C18_D (firstn 215 (enc C18_example)) 862 = Ok (view_of C18_T C18_D (trunc_times 1 C18_example))
+  /\ impl_open C18_T C18_D (firstn 92 (enc C18_example)) 368 = Ok (view_of C18_T C18_D (first_tracers 1 C18_example)).
 Proof. vm_compute. repeat split; reflexivity. Qed.
